@@ -530,6 +530,49 @@ def d6_eof_is_real(ctx):
                       '%s replaces the close timer: the question "did the timer close this connection?" is then put to a fresh object that '
                       'answers no, and a read cut off by the time-out returns b\'\' like a clean end of stream' % name, ci.methods[name].loc(sts[0]))
 
+    # ... and whoever arms the timer around a read also asks it: a read of the transport that runs while the close timer is armed (in a
+    # `with self._close_timer.with_timeout()` block of its own, or inside run_network_operation through close_timeout=) must go
+    # through the branch of run_network_operation that asks is_timeout() afterwards, i.e. carry close_timeout=
+    rno = None
+    for ci in [c for c in repo.classes.values() if c.module is mod]:
+        rno = rno or ci.methods.get('run_network_operation')
+    if rno is None:
+        raise AnalysisError('run_network_operation not found')
+    asks = False
+    for i in walk_no_nested(rno.node):
+        if isinstance(i, ast.If) and 'close_timeout' in norm_text(i.test) and 'is not None' in norm_text(i.test):
+            armed = [w for w in i.body if isinstance(w, ast.With) and any('with_timeout' in norm_text(it.context_expr) for it in w.items)]
+            after = [j for j in i.body if isinstance(j, ast.If) and 'is_timeout()' in norm_text(j.test)
+                     and any(isinstance(r, ast.Raise) for r in (j.body if 'not' not in norm_text(j.test) else j.orelse))]
+            asks = bool(armed) and bool(after) and i.body.index(after[0]) > i.body.index(armed[0])
+    ck.expect(asks, 'C08-D6', rno.qual, 'close_timeout branch: arm the timer, run the task, then ask is_timeout() and raise',
+              'run_network_operation no longer turns a read ended by the close timer into NetworkTimedOut', rno.loc())
+    n_armed = 0
+    for ci in [c for c in repo.classes.values() if c.module is mod]:
+        for m in ci.methods.values():
+            if m is rno:
+                continue
+            pm = None
+            for c in U.calls(m.node):
+                if not norm_text(c.func).endswith('run_network_operation') or not c.args:
+                    continue
+                a0 = norm_text(c.args[0])
+                if 'reader.read' not in a0:
+                    continue
+                pm = pm or U.parents(m.node)
+                under_with = any(isinstance(p_, ast.With) and any('with_timeout' in norm_text(it.context_expr) for it in p_.items)
+                                 for p_ in U.ancestors(c, pm))
+                has_kw = any(k.arg == 'close_timeout' for k in c.keywords)
+                has_wait = any(k.arg == 'wait_timeout' for k in c.keywords)
+                n_armed += 1
+                ck.expect(has_kw or (has_wait and not under_with), 'C08-D6', m.qual, 'transport read runs with close_timeout= (timer armed and asked)',
+                          ('the read runs under the armed close timer but without close_timeout=: when the timer closes a stalled connection the '
+                           'read returns b\'\' and nobody asks is_timeout() - the stall is taken for the end of the stream' if under_with else
+                           'the read of the transport carries neither close_timeout= nor wait_timeout=: a stalled peer is never timed out, or - armed '
+                           'elsewhere - its time-out is taken for the end of the stream'), m.loc(c))
+    if n_armed < 2:
+        raise AnalysisError('expected the read and readline calls of the connection to go through run_network_operation (found %d)' % n_armed)
+
 
 # =============================================================================== D1
 def _strategy_of(val, strat_keys):
